@@ -36,6 +36,12 @@ class Unwind(Exception):
         self.tinfo = tinfo
         self.dtor = dtor
 
+class ReturnFrom(Exception):
+    """raised by a stub to make the named IR function return immediately (used to cut an output-formatting tail whose
+    effects are not the subject, e.g. building a file name from a symbolic number)"""
+    def __init__(self, name, value=None):
+        Exception.__init__(self); self.name = name; self.value = value
+
 class ProgramExit(Exception):
     def __init__(self, code):
         self.code = code
@@ -1343,6 +1349,10 @@ class Interp:
                     steps = 0
                     if self.steps > self.max_steps:
                         raise PathEnd('step budget exceeded')
+        except ReturnFrom as rf:
+            if rf.name == cf.name:
+                return rf.value
+            raise
         finally:
             self.steps += steps
             self.call_stack.pop()
